@@ -355,7 +355,11 @@ def initial(ctx):
             continue
         ini = {i.get("field"): f.s(i.get("init")) for i in f.inits if i.get("field")}
         for fld in ("threshold_", "count_"):
-            p = path(f, ini.get(fld)) if ini.get(fld) is not None else None
+            e_ = unwrap(f, ini.get(fld)) if ini.get(fld) is not None else None
+            while e_ is not None and e_["k"] in ("CXXConstructExpr", "CXXTemporaryObjectExpr", "InitListExpr"):
+                ch_ = [f.s(a) for a in e_.get("args", [])] if e_["k"] != "InitListExpr" else f.children(e_)
+                e_ = unwrap(f, ch_[0]) if len(ch_) == 1 else None      # std::atomic<size_t> count_(count)
+            p = path(f, e_) if e_ is not None else None
             ok = p in ("p:" + f.params[0]["name"], "this.threshold_")
             ctx.ob(rid, ok, f.where, "%s starts from the participant count" % fld, "" if ok else "initialised from %s" % p,
                    fn=f.label, inst=f.qname)
